@@ -1284,6 +1284,167 @@ func TestVerifC10Chain(t *testing.T) {
 	rep.RequireMin("chained_links_ok", 300)
 }
 
+// TestVerifC10SendErrorFirst: two-step histories on one client - first the SEND side records an error while
+// the client stays alive (it closed its input, or a request cannot be encoded), afterwards the client's OUTPUT
+// fails. The later failure must still end the client: not running any more, told to stop, callbacks drained.
+func TestVerifC10SendErrorFirst(t *testing.T) {
+	rep := verifkit.Begin("C10", "send-error-first", "in-process client that reads two requests, answers the first, then (variant input-closed) closes its input, waits, spoils its output (garbage / duplicate answer / unknown name / frame cut + close) and lingers until it is cancelled; the runner sends t1, t2, then a third request that fails on the send side (input closed, or a request with invalid UTF-8 that cannot be encoded; control: none), then lets the client spoil its output; oracle: isRunning() becomes false and the client is told to stop within the progress bound, t1 gets its own answer once, t2 exactly one error callback, the failed send fires no callback, later sends are refused, waitForResponses returns an error; distinct = (send-side step, output failure)")
+	defer rep.Write()
+	steps := []string{"none", "input-closed", "unencodable-request"}
+	spoils := []string{"garbage", "duplicate", "unknown-name", "cut"}
+	rounds := verifkit.Scale(2, 12)
+	for round := 0; round < rounds; round++ {
+		for _, step := range steps {
+			for _, spoil := range spoils {
+				rep.Eval(1)
+				rep.DistinctKey(step, spoil)
+				goAhead := make(chan struct{})
+				told := make(chan struct{})
+				readTwo := make(chan struct{})
+				impl := func(ctx context.Context, _ []string, in io.ReadCloser, out, _ io.WriteCloser) error {
+					var names []string
+					for i := 0; i < 2; i++ {
+						var pre [4]byte
+						if _, err := io.ReadFull(in, pre[:]); err != nil {
+							return nil
+						}
+						buf := make([]byte, binary.BigEndian.Uint32(pre[:]))
+						if _, err := io.ReadFull(in, buf); err != nil {
+							return nil
+						}
+						req := &conformancev1.ClientCompatRequest{}
+						_ = proto.Unmarshal(buf, req)
+						names = append(names, req.TestName)
+					}
+					_, _ = out.Write(vfFrameResp(names[0], "answer-for-"+names[0]))
+					if step == "input-closed" {
+						_ = in.Close()
+					}
+					close(readTwo)
+					select {
+					case <-goAhead:
+					case <-ctx.Done():
+						close(told)
+						return nil
+					}
+					switch spoil {
+					case "garbage":
+						_, _ = out.Write([]byte{0, 0, 0, 6, 0xff, 0xff, 0xff, 0xff, 0xff, 0xff})
+					case "duplicate":
+						_, _ = out.Write(vfFrameResp(names[0], "again"))
+					case "unknown-name":
+						_, _ = out.Write(vfFrameResp("never/sent", "x"))
+					default:
+						f := vfFrameResp(names[1], "answer")
+						_, _ = out.Write(f[:6])
+						_ = out.Close()
+					}
+					<-ctx.Done() // lingers: only an abort ends it
+					close(told)
+					return nil
+				}
+				ctx, cancel := context.WithCancel(context.Background())
+				runner, err := runClient(ctx, runInProcess([]string{"client"}, impl))
+				if err != nil {
+					cancel()
+					rep.Inconcl("runClient: " + err.Error())
+					continue
+				}
+				var mu sync.Mutex
+				cbs := map[string][]string{}
+				cb := func(name string) func(string, *conformancev1.ClientCompatResponse, error) {
+					return func(_ string, resp *conformancev1.ClientCompatResponse, err error) {
+						mu.Lock()
+						defer mu.Unlock()
+						if err != nil {
+							cbs[name] = append(cbs[name], "error")
+						} else {
+							cbs[name] = append(cbs[name], resp.GetError().GetMessage())
+						}
+					}
+				}
+				pfx := fmt.Sprintf("SendErrFirst/%d/%s/%s/", round, step, spoil)
+				var problems []string
+				sendErrs := map[string]error{}
+				for _, n := range []string{"t1", "t2"} {
+					sendErrs[n] = runner.sendRequest(&conformancev1.ClientCompatRequest{TestName: pfx + n}, cb(pfx+n))
+				}
+				select {
+				case <-readTwo:
+				case <-time.After(30 * time.Second):
+					problems = append(problems, "the client never got its two requests")
+				}
+				switch step {
+				case "input-closed":
+					sendErrs["t3"] = runner.sendRequest(&conformancev1.ClientCompatRequest{TestName: pfx + "t3"}, cb(pfx+"t3"))
+				case "unencodable-request":
+					sendErrs["t3"] = runner.sendRequest(&conformancev1.ClientCompatRequest{TestName: pfx + "t3", Host: "bad\xffhost"}, cb(pfx+"t3"))
+				}
+				if step != "none" && sendErrs["t3"] == nil {
+					problems = append(problems, "the third request was accepted although it cannot reach the client")
+				}
+				close(goAhead)
+				// bounded progress: the output failure ends the client
+				deadline := time.Now().Add(20 * time.Second)
+				for runner.isRunning() && time.Now().Before(deadline) {
+					time.Sleep(2 * time.Millisecond)
+				}
+				stillRunning := runner.isRunning()
+				toldToStop := false
+				select {
+				case <-told:
+					toldToStop = true
+				case <-time.After(time.Until(deadline)):
+				}
+				lateErr := runner.sendRequest(&conformancev1.ClientCompatRequest{TestName: pfx + "late"}, cb(pfx+"late"))
+				waited := make(chan error, 1)
+				go func() { waited <- runner.waitForResponses() }()
+				var werr error
+				select {
+				case werr = <-waited:
+				case <-time.After(30 * time.Second):
+					problems = append(problems, "waitForResponses did not return")
+				}
+				runner.stop()
+				cancel()
+				mu.Lock()
+				w := map[string]any{"send_side_step": step, "output_failure": spoil, "callbacks": fmt.Sprint(cbs), "send_errors": fmt.Sprint(sendErrs), "late_send": fmt.Sprint(lateErr), "wait_error": fmt.Sprint(werr)}
+				if stillRunning {
+					rep.Violation("mux/send-error-first/still-running/"+step, fmt.Sprintf("the client's output failed (%s) after a send-side error (%s), isRunning() is still true after the progress bound", spoil, step), w)
+				}
+				if !toldToStop {
+					rep.Violation("mux/send-error-first/not-told-to-stop/"+step, fmt.Sprintf("the client's output failed (%s) after a send-side error (%s), the lingering client was never told to stop", spoil, step), w)
+				}
+				if got := cbs[pfx+"t1"]; len(got) != 1 || got[0] != "answer-for-"+pfx+"t1" {
+					problems = append(problems, fmt.Sprintf("t1 callbacks %q", got))
+				}
+				if got := cbs[pfx+"t2"]; len(got) != 1 || got[0] != "error" {
+					problems = append(problems, fmt.Sprintf("t2 callbacks %q, want one error", got))
+				}
+				if len(cbs[pfx+"t3"]) != 0 && sendErrs["t3"] != nil {
+					problems = append(problems, fmt.Sprintf("refused t3 got callbacks %q", cbs[pfx+"t3"]))
+				}
+				if lateErr == nil || len(cbs[pfx+"late"]) != 0 {
+					problems = append(problems, fmt.Sprintf("a send after the failure: err=%v callbacks=%q", lateErr, cbs[pfx+"late"]))
+				}
+				if werr == nil {
+					problems = append(problems, "waitForResponses returned nil after the client failed")
+				}
+				if len(problems) > 0 {
+					w["problems"] = problems
+					rep.Violation("mux/send-error-first/history/"+step, problems[0], w)
+				} else if !stillRunning && toldToStop {
+					rep.Count("send_error_first_ok:"+step, 1)
+				}
+				mu.Unlock()
+			}
+		}
+	}
+	rep.Sample(map[string]any{"history": "t1 answered; client closes its input; t3 refused (send side); client writes garbage and lingers", "expect": "isRunning false, client cancelled, t2 one error callback"})
+	rep.RequireMin("send_error_first_ok:input-closed", 4)
+	rep.RequireMin("send_error_first_ok:unencodable-request", 4)
+}
+
 // ---- a quiet spell longer than the runner's read timeout ----
 
 type vfIdleResult struct {
